@@ -36,13 +36,18 @@ var (
 	vtracePath = map[*types.Context]string{}
 )
 
-func vtraceEmit(m map[string]any) {
+// vtraceOn 未设置 VERIF_TRACE 时，所有记录函数立即返回。
+func vtraceOn() bool {
 	vtraceOnce.Do(func() {
 		if p := os.Getenv("VERIF_TRACE"); p != "" {
 			vtraceFile, _ = os.OpenFile(p, os.O_APPEND|os.O_CREATE|os.O_WRONLY, 0o644)
 		}
 	})
-	if vtraceFile == nil {
+	return vtraceFile != nil
+}
+
+func vtraceEmit(m map[string]any) {
+	if !vtraceOn() {
 		return
 	}
 	b, err := json.Marshal(m)
@@ -82,24 +87,36 @@ func (tree *Tree[T]) vbase(ev string) map[string]any {
 }
 
 func (tree *Tree[T]) vtraceAdd(pattern string, methods []string) {
+	if !vtraceOn() {
+		return
+	}
 	m := tree.vbase("add")
 	m["pat"], m["methods"] = pattern, append([]string{}, methods...)
 	vtraceEmit(m)
 }
 
 func (tree *Tree[T]) vtraceOp(ev, pattern string, methods []string) {
+	if !vtraceOn() {
+		return
+	}
 	m := tree.vbase(ev)
 	m["pat"], m["methods"] = pattern, append([]string{}, methods...)
 	vtraceEmit(m)
 }
 
 func (tree *Tree[T]) vtraceEnter(ctx *types.Context) {
+	if !vtraceOn() {
+		return
+	}
 	vtraceMu.Lock()
 	vtracePath[ctx] = ctx.Path
 	vtraceMu.Unlock()
 }
 
-func (tree *Tree[T]) vtraceServe(ctx *types.Context, method string, n types.Node, ok bool) {
+func (tree *Tree[T]) vtraceServe(ctx *types.Context, method string, n *node[T], ok bool) {
+	if !vtraceOn() {
+		return
+	}
 	vtraceMu.Lock()
 	path := vtracePath[ctx]
 	delete(vtracePath, ctx)
@@ -111,7 +128,8 @@ func (tree *Tree[T]) vtraceServe(ctx *types.Context, method string, n types.Node
 	m["hasNode"] = n != nil
 	m["pat"], m["allow"] = "", []string{}
 	if n != nil {
-		ms := append([]string{}, n.Methods()...)
+		// 调用者已持有读锁：直接读取（n.Methods() 会再次加读锁，与等待中的写锁形成死锁）
+		ms := append([]string{}, getMethodIndex(n.methodIndex).methods...)
 		sort.Strings(ms)
 		m["pat"], m["allow"] = n.Pattern(), ms
 	}
